@@ -98,6 +98,45 @@ func checkSplit(src string) string {
 	}
 	// Parse: statements <-> non-empty pieces
 	stmts, err := parser.Parse(src)
+	// Whether or not parsing succeeds, every statement Parse reports lies
+	// inside one piece (its positions never cross a semicolon token) and the
+	// statements come in the order of their pieces.
+	lastPiece := -1
+	for k, st := range stmts {
+		if astx.IsNilNode(st) {
+			continue
+		}
+		lo, hi := -1, -1
+		for _, ns := range astx.AllSpanValues(st) {
+			if !ns.Span.IsValid() || ns.Span.Len() == 0 {
+				// empty spans designate no text (a failed parse leaves e.g. the
+				// zero Span of a bracket that never came)
+				continue
+			}
+			if lo < 0 || ns.Span.Start < lo {
+				lo = ns.Span.Start
+			}
+			if ns.Span.End > hi {
+				hi = ns.Span.End
+			}
+		}
+		if lo < 0 {
+			continue
+		}
+		piece := -1
+		for pi, in := range infos {
+			if lo >= in.offset && hi <= in.offset+len(in.text) {
+				piece = pi
+			}
+		}
+		if piece < 0 {
+			return fmt.Sprintf("statement %d reported by Parse covers [%d,%d), which is not inside any single piece (it crosses a semicolon token)", k, lo, hi)
+		}
+		if piece <= lastPiece {
+			return fmt.Sprintf("statement %d reported by Parse lies in piece %d, after a statement of piece %d: order or number of statements does not follow the pieces", k, piece, lastPiece)
+		}
+		lastPiece = piece
+	}
 	var pieceStmts []parser.Statement
 	for _, in := range infos {
 		if in.ntoks == 0 {
